@@ -425,6 +425,19 @@ theorem initColsFold_wf (q : Bool) (n : Nat) (h0 : Cells) : ∀ (cols : List (Li
     simp only [List.foldl_cons]
     exact ih _ _ hg' hf' (fun x hx => hlen x (List.mem_cons_of_mem _ hx))
 
+theorem initColsFold_length (q : Bool) : ∀ (cols : List (List QL)) (hc : Cells) (fr : List Slice),
+    (cols.foldl (fun (acc : Cells × List Slice) c =>
+        ((acc.1.ofList (c.map (Lin.stored q)) c.length zeroQL).1,
+         acc.2 ++ [(acc.1.ofList (c.map (Lin.stored q)) c.length zeroQL).2])) (hc, fr)).2.length
+      = fr.length + cols.length := by
+  intro cols
+  induction cols with
+  | nil => intro hc fr; rfl
+  | cons c cs ih =>
+    intro hc fr
+    simp only [List.foldl_cons]
+    rw [ih]; simp; omega
+
 theorem transposeRows_length (rows : List (List QL)) : ∀ c ∈ transposeRows rows, c.length = rows.length := by
   intro c hc
   cases rows with
@@ -452,11 +465,27 @@ theorem initWorld_wf (cx : Ctx) (kind : String) (strand : Int) (rows : List SeqS
     have hf := initColsFold_wf ("aln" == "qaln") rows.length (Heap.empty : Cells)
       (transposeRows (rows.map (·.cells))) Heap.empty [] (Grow.refl _) (FreshCols.nil _ _ _)
       (fun c hc => by have := transposeRows_length _ c hc; simpa using this)
-    exact worldWF_single _ (.aln _) ⟨rfl, rows.length, ⟨fun c hc => (hf.1 c hc).1, hf.2⟩, fun c hc => (hf.1 c hc).2.1⟩
+    refine worldWF_single _ (.aln _) ⟨rfl, rows.length, ⟨⟨fun c hc => (hf.1 c hc).1, hf.2⟩, fun c hc => (hf.1 c hc).2.1⟩, ?_⟩
+    intro hne
+    have hl := initColsFold_length ("aln" == "qaln") (transposeRows (rows.map (·.cells))) Heap.empty []
+    have hcne : (transposeRows (rows.map (·.cells))).isEmpty = false := by
+      cases hc : transposeRows (rows.map (·.cells)) with
+      | nil => exact (hne (List.length_eq_zero_iff.mp (hl.trans (by rw [hc]; rfl)))).elim
+      | cons _ _ => rfl
+    show (if (transposeRows (rows.map (·.cells))).isEmpty then [] else rows.map fun sp => (⟨sp.name, 0, sp.strand⟩ : Ann)).length = rows.length
+    rw [hcne]; simp
   · have hf := initColsFold_wf ("qaln" == "qaln") rows.length (Heap.empty : Cells)
       (transposeRows (rows.map (·.cells))) Heap.empty [] (Grow.refl _) (FreshCols.nil _ _ _)
       (fun c hc => by have := transposeRows_length _ c hc; simpa using this)
-    exact worldWF_single _ (.aln _) ⟨rfl, rows.length, ⟨fun c hc => (hf.1 c hc).1, hf.2⟩, fun c hc => (hf.1 c hc).2.1⟩
+    refine worldWF_single _ (.aln _) ⟨rfl, rows.length, ⟨⟨fun c hc => (hf.1 c hc).1, hf.2⟩, fun c hc => (hf.1 c hc).2.1⟩, ?_⟩
+    intro hne
+    have hl := initColsFold_length ("qaln" == "qaln") (transposeRows (rows.map (·.cells))) Heap.empty []
+    have hcne : (transposeRows (rows.map (·.cells))).isEmpty = false := by
+      cases hc : transposeRows (rows.map (·.cells)) with
+      | nil => exact (hne (List.length_eq_zero_iff.mp (hl.trans (by rw [hc]; rfl)))).elim
+      | cons _ _ => rfl
+    show (if (transposeRows (rows.map (·.cells))).isEmpty then [] else rows.map fun sp => (⟨sp.name, 0, sp.strand⟩ : Ann)).length = rows.length
+    rw [hcne]; simp
   · exact worldWF_single _ (.multi _) (newLins_rowsCapWF cx Heap.empty rows)
   · exact worldWF_single _ (.set _) (newLins_rowsCapWF cx Heap.empty rows)
   · exact worldWF_empty _
@@ -588,7 +617,7 @@ theorem clone_view_equal (cx : Ctx) (w : World) (hw : WorldWF w) (k : Nat) (o : 
     obtain ⟨_, _, _, _, _, ho, hs, hn, hq, hlen⟩ := Lin.clone_fresh cx w.cells l hv
     simp only [apply, hk, viewObj, linRowV_clone cx w.cells l hv, Lin.start, Lin.«end», Lin.len, ho, hs, hq, hlen]
   | aln a =>
-    obtain ⟨_, n, hc⟩ := hwf
+    obtain ⟨_, n, hc, _⟩ := hwf
     refine ⟨.aln (a.clone cx w.cells).2, by simp [apply, hk], ?_⟩
     obtain ⟨news, h2, hall, _, _, _⟩ := cloneColsFold_spec cx n a.cols w.cells [] hc.toColsWF.1
     simp only [apply, hk]
